@@ -85,7 +85,7 @@ def _m2t():
                               'affinity': 'u', 'traits': ['u1']}
     cfg['events'] = mastercfg.ev(
         ('app+', 'pl'), ('app+', 't1'), ('app+', 'u1'), ('app-', 0),
-        ('pres-', 's0'),
+        ('pres-', 's0'), ('alloc', 5),
         ('alloc', 1), ('alloc', 2), ('alloc', 0),
         ('srv', 's0', 1), ('srv', 's0', 2), ('srv', 's0', 0),
         ('srv', 's1', 1), ('srv', 's1', 0),
